@@ -279,7 +279,10 @@ def run(ctx, name, kind, **kw):
             cfp2 = lib.CurveFp(int(cfp.p()), int(cfp.a()), int(cfp.b()), None)      # equal curve (same p, a, b as declared), separate object, no cofactor declared
             a_specs = (("G", lambda: c.generator, G), ("plain", lambda: build(cfp, Pm, "jzr", rng, order=n), Pm), ("noorder", lambda: build(cfp, Pm, "j1", rng, order=None), Pm),
                        ("noorder_scaled", lambda: build(cfp, Pm, "jzr", rng, order=None), Pm),
-                       ("identity_z0", lambda: PointJacobi(cfp, rng.randrange(1, p), rng.randrange(1, p), 0, n), None), ("identity_z0_noorder", lambda: PointJacobi(cfp, 1, 1, 0), None))
+                       ("identity_z0", lambda: PointJacobi(cfp, rng.randrange(1, p), rng.randrange(1, p), 0, n), None), ("identity_z0_noorder", lambda: PointJacobi(cfp, 1, 1, 0), None),
+                       # generators (tables) that declare a MULTIPLE of the order: it annihilates every point too; the two operands' tables then differ in length
+                       ("G_table_declared_8n", lambda: PointJacobi(cfp, G[0], G[1], 1, 8 * n, generator=True), G),
+                       ("Pm_table_declared_100n", lambda: lib.mk_jac(cfp, Pm, rng.randrange(2, p), 100 * n, True), Pm))
             _PJ["i"] += 1
             if _PJ["i"] % 2 == 0:
                 # ONE first-operand object used for consecutive calls with second operands that are related to each other (Q; -Q written
@@ -302,6 +305,8 @@ def run(ctx, name, kind, **kw):
                            ("opposite", lambda: build(cfp, cv.neg(PA), "jzr", rng, order=n) if PA is not None else PointJacobi(cfp, 9, 9, 0), cv.neg(PA)),
                            ("inf", lambda: INFINITY, None), ("inf_copy", lambda: Point(None, None, None), None), ("table", lambda: vk.pubkey.point, Pm),
                            ("table_scaled_fresh", lambda: lib.mk_jac(cfp, Q, rng.randrange(2, p), n, True), Q),
+                           ("table_declared_64n", lambda: lib.mk_jac(cfp, Q, rng.randrange(2, p), 64 * n, True), Q),
+                           ("table_declared_4n", lambda: PointJacobi(cfp, Q[0], Q[1], 1, 4 * n, generator=True), Q),
                            # the same point as self / another point, with X or Y handed over unreduced next to Z = 1 (arithmetic takes these on the pinned tree)
                            ("same_unreduced_x", lambda: PointJacobi(cfp, PA[0] + p, PA[1], 1, n) if PA is not None else PointJacobi(cfp, 2, 7, 0, n), PA),
                            ("same_unreduced_y", lambda: PointJacobi(cfp, PA[0], PA[1] - p, 1, n) if PA is not None else PointJacobi(cfp, 2, 7, 0, n), PA),
